@@ -119,6 +119,10 @@ def check_c04(tier):
         rep.sample({"ver": c["b"]["ver"], "dest": c["dest"], "count": c["count"], "file_len": len(c["file"]), "file_head_hex": bytes(c["file"][:40]).hex()})
     _neg_wr(rep, "C04", cases)
     rep.assumptions = ["section order other than 'responses' last is not constrained", "as C03"]
+    # "the byte count the writer returns equals the number of bytes it handed to the destination": also when the destination
+    # fails, at every position and in every failure mode (WriterFaults.tla, the bundle serializers of the C19 sweep)
+    from wf_checks import writer_faults
+    writer_faults(rep, "C04", tier, "bundle")
     return rep.finish()
 
 
